@@ -62,6 +62,7 @@ func _roll64(src *rand.PCGSource, dicePoints int64, mod int) int64 {
 }
 
 func Roll(src *rand.PCGSource, dicePoints IntType, mod int) IntType {
+	verifTick(verifTickRoll)
 	if dicePoints == 0 {
 		return 0
 	}
